@@ -256,7 +256,8 @@ StepRaise(s, e) ==
   ELSE LET d == Head(s.due) IN
        IF d.k = "send" THEN Fail(s, IF d.op = OpPong THEN "C07.ping_not_answered" ELSE "C08.close_not_answered")
        ELSE IF d.k = "ret" /\ RecvCannotDecode(s, d) THEN
-            IF e.doc THEN Res([EndCall(s) EXCEPT !.failed = TRUE], TRUE, "") ELSE Fail(s, "C17.undocumented_exception")
+            \* (recv() cannot hand out text it cannot decode: the frame counts as observed, the caller may read on)
+            IF e.doc THEN Res(EndCall(Obs(s, <<"ret", d.op, d.fin, d.data>>)), TRUE, "") ELSE Fail(s, "C17.undocumented_exception")
        ELSE IF d.k = "ret" THEN
             Fail(s, IF e.cls = "WebSocketProtocolException" THEN "C05.legal_frame_rejected"
                     ELSE IF e.cls = "WebSocketPayloadException" THEN "C06.well_formed_text_rejected"
@@ -273,7 +274,9 @@ StepRaise(s, e) ==
                       [] OTHER -> "C08.loss_not_reported_as_connection_closed")
        ELSE IF d.cls = "Closed" /\ ~(e.sock_none /\ ~e.connected /\ e.tclosed) THEN Fail(s, "C08.transport_not_released_on_loss")
        ELSE LET s1 == EndCall(Obs(s, <<"raise", d.cls>>))
-            IN Res([s1 EXCEPT !.failed = (d.cls \in {"Protocol", "Payload"})], TRUE, "")
+            \* (after a protocol error RFC 6455 says nothing about what follows; a refused text message ends at a frame
+            \*  boundary with the reassembly state cleared: an application that catches the error reads on normally)
+            IN Res([s1 EXCEPT !.failed = (d.cls = "Protocol")], TRUE, "")
 
 Step(s, e) ==
   CASE e.ev = "call"     -> StepCall(s, e)
@@ -309,7 +312,7 @@ OracleFrom(s, fs, api, control) ==
                         ELSE <<"raise", d.cls>>]
            endsInFailure == s1.due # <<>> /\
                             LET l == s1.due[Len(s1.due)] IN
-                              (l.k = "raise" /\ l.cls \in {"Protocol", "Payload"})
+                              (l.k = "raise" /\ l.cls = "Protocol")
                               \/ (l.k = "ret" /\ l.op = OpClose /\ api # "recv_frame")
        IN outs \o OracleFrom([s1 EXCEPT !.failed = endsInFailure], Tail(fs), api, control)
 
